@@ -1,7 +1,8 @@
 import re, json, os, sys
-ROOT = "/tmp/lw/iostmt"
+ROOT = sys.argv[1] if len(sys.argv) > 1 else "/tmp/lw/iostmt"   # the lean project dir
+TOOLS = os.path.dirname(os.path.abspath(__file__))
 P = os.path.join(ROOT, "FparserModel", "Proofs")
-FILES = ["IoStmtLayoutWrite", "IoStmtLayoutIo", "IoStmtLayoutCtl", "IoStmtLayoutMisc", "IoStmtLayoutFmt",
+FILES = ["IoStmtHollerith", "IoStmtLayoutWrite", "IoStmtLayoutIo", "IoStmtLayoutCtl", "IoStmtLayoutMisc", "IoStmtLayoutFmt",
          "IoStmtLayoutCombi", "IoStmtTotal", "IoStmtFixpoint", "IoStmtSeg", "IoStmtHead", "IoStmtSrm"]
 src = {f: open(os.path.join(P, f + ".lean"), encoding="utf-8").read() for f in FILES}
 
@@ -144,12 +145,14 @@ for p_, q_ in [("actualArgSpecList", "Actual_Arg_Spec_List"), ("connectSpecList"
     add(p_ + "_tostr_match_tokens", q_ + "_tostr_match_tokens", a, "partial", "instance of SequenceBase; " + SRM)
 # (c)
 c6 = ["C06"]
-add("matchOf_total", "match_total", c6, "full", "EVERY modelled class except Format_Item_List, both standards: an exception escaping from `match` is the KeyError of string_replace_map's un-nesting loop (tokenise = none; impossible for SrmOK texts) or was raised inside a child call; all IndexError/TypeError/AssertionError branches of the models are unreachable")
+add("matchOf_total", "match_total", c6, "full", "EVERY modelled class, Format_Item_List included since the repair fa6d1cf of /repo, both standards: an exception escaping from `match` is the KeyError of string_replace_map's un-nesting loop (tokenise = none; impossible for SrmOK texts) or was raised inside a child call; all IndexError/TypeError/AssertionError/ValueError branches of the models are unreachable")
 add("plan_match_total", "plan_match_total", c6, "full", "")
-add("matchOf_formatItemList_total", "Format_Item_List_match_total", c6, "partial", "EXACT set: ValueError (int(\"1 2\") on a Hollerith prefix with an inner blank), KeyError of the tokeniser, or a child's exception")
-add("planFormatItemList_valueError_witness", "Format_Item_List_ValueError_witness", c6, "witness", "planFormatItemList \"1 2habc\" = [raise ValueError]; replayed: `10 format(1 2habc)` makes the parser raise ValueError (both standards)")
-add("formatItemList_valueError_escapes", "Format_Item_List_ValueError_escapes", c6, "witness", "whatever the children do")
-add("formatItemList_raises_ok", "Format_Item_List_raises_only_ValueError", c6, "partial", "under loopOK the KeyError is excluded")
+add("matchOf_formatItemList_total", "Format_Item_List_match_total", c6, "full", "after fa6d1cf: as every other class (before: additionally the ValueError of int(\"1 2\"))")
+add("hollerith_count_int", "Format_Item_List_hollerith_count_int", c6, "full", "the int(match_str[:-1].replace(\" \", \"\")) of the repaired Hollerith branch never raises: for every Hollerith prefix ^[1-9][0-9 ]*[hH] the text is a non-empty digit string; the ValueError branch of the model is kept and proved unreachable")
+add("formatItemList_hollerith_blank_no_raise", "Format_Item_List_blank_count_regression", c6, "witness", "REGRESSION for fa6d1cf: planFormatItemList on `1 2habc` and `1 0h` (ValueError before the repair) is now [fail] = return None; replayed: `10 format(1 2habc)` is a FortranSyntaxError, `format(1 2habcdefghijkl, i3)` parses")
+add("formatItemList_hollerith_blank_no_escape", "Format_Item_List_blank_count_no_escape", c6, "witness", "whatever the children do: no match, no exception")
+add("formatItemList_hollerith_blank_count", "Format_Item_List_blank_count_accepts", ["C06", "C02"], "witness", "`1 2habcdefghijkl, i3`: count 12 (blanks removed), the Hollerith item is the first 16 characters, then Format_Item i3")
+add("formatItemList_raises_ok", "Format_Item_List_raises_nothing", c6, "partial", "under loopOK (tokeniser hypothesis at every round) the plan contains no raise slot at all")
 add("formatItem_raises", "Format_Item_match_total", c6, "full", "both standards; the F2008 `len(strip_string) > 1` guard is what prevents the IndexError")
 add("formatItemStar_index_safe", "Format_Item_2008_index_safe", c6, "full", "")
 add("star_without_guard", "Format_Item_2008_guard_needed", c6, "witness", "counter-factual: without the guard `*` indexes an empty string")
@@ -176,7 +179,7 @@ NOTE_FIX = ("printing is re-matchable and stable: the printed text is matched by
 for n_ in fix:
     add(n_, n_, ["C01"], "partial", NOTE_FIX)
 # toolkit
-add("srm_toks", "srm_toks_io", ["C02"], "partial", "the tokenised text is a well-formed token text over the returned map whose expansion is the line modulo blanks inside brackets (exposes what srm_roundtrip_partial hides); hypotheses Free / FoundsEndOK")
+add("srm_toks_io", "srm_toks", ["C02"], "partial", "the tokenised text is a well-formed token text over the returned map whose expansion is the line modulo blanks inside brackets (exposes what srm_roundtrip_partial hides); hypotheses Free / FoundsEndOK")
 add("srm_head", "srm_head", ["C02", "C08"], "full", "the first character of a line survives string_replace_map unless it is a digit or `.`")
 add("srm_prefix_alpha", "srm_prefix_alpha", ["C02"], "full", "a leading run of letters survives string_replace_map")
 
@@ -198,7 +201,7 @@ out = []
 out.append("import FparserModel.Proofs.IoStmtLayoutIo\nimport FparserModel.Proofs.IoStmtLayoutCtl\nimport FparserModel.Proofs.IoStmtLayoutMisc\n"
            "import FparserModel.Proofs.IoStmtLayoutFmt\nimport FparserModel.Proofs.IoStmtLayoutCombi\nimport FparserModel.Proofs.IoStmtTotal\n"
            "import FparserModel.Proofs.IoStmtFixpoint\n")
-out.append(open(os.path.join(ROOT, "tools", "props_header.txt"), encoding="utf-8").read())
+out.append(open(os.path.join(TOOLS, "props_header_iostmt.txt"), encoding="utf-8").read())
 entries = []
 axioms = []
 for proof, props, serves, strength, note in T:
@@ -240,7 +243,7 @@ entries.append({"name": "Fp.IoStmt.Props.Write_Stmt_rejects_unbalanced", "file":
                 "statement": "(planWrite s).bind (runSlots o) = .ok items → SrmOK (lstrip (s.drop 5)) → (∀ i ∈ items, net (i.text o) = 0) → net s = 0",
                 "serves": ["C08"], "strength": "partial", "note": "WRITE: the output list is everything after the `)` of the control list, even when it ends in `)`"})
 axioms.append("Write_Stmt_rejects_unbalanced")
-out.append(open(os.path.join(ROOT, "tools", "props_footer.txt"), encoding="utf-8").read())
+out.append(open(os.path.join(TOOLS, "props_footer_iostmt.txt"), encoding="utf-8").read())
 out.append("end Fp.IoStmt.Props\n")
 for n_ in axioms:
     out.append("#print axioms Fp.IoStmt.Props.%s" % n_)
